@@ -9,6 +9,7 @@ import (
 	"encoding/json"
 	"fmt"
 	"sort"
+	"strings"
 	"testing"
 
 	"github.com/wmnsk/go-pfcp/ie"
@@ -265,6 +266,19 @@ func up4ImageCheck(s *sessSys) []up4Viol {
 		used[pe] = true
 		if pe.Action != "load_tunnel_param" || pe.Params["src_addr"] != n3 || pe.Params["dst_addr"] != gnb || pe.Params["sport"] != tunnelGTPUPort {
 			bad("tunnel-peer-params", "tunnel peer %d is %v, expected (%s -> %s, 2152)", id, pe, vN3Addr, vIPStr(uint32(gnb)))
+		}
+	}
+	// loose: a live FAR that carries tunnel parameters but does not forward at the moment (buffering or dropping with the
+	// Outer Header Creation still present) may keep its tunnel peer - the statement's "uses" does not settle it
+	for _, x := range s.m.live(-1) {
+		for _, f := range x.FARs {
+			if f.OHCIP != "" && f.OHCTEID != 0 && f.Action&ActionForward == 0 {
+				for _, pe := range peers {
+					if pe.Params["dst_addr"] == uint64(vIP4(f.OHCIP)) {
+						used[pe] = true
+					}
+				}
+			}
 		}
 	}
 	if allStrict {
@@ -564,6 +578,13 @@ func TestVerifC04(t *testing.T) {
 		ex.mk = mk(ex, sc)
 		ex.replay(c)
 		return
+	}
+	if vMine(0) {
+		// the fast assembly used for bulk exploration must equal what the real SetUpfInfo / tryConnect produce
+		if diff := vUP4StartupConformance(); len(diff) > 0 {
+			panic("VERIF-INFRA: fast UP4 assembly differs from the real start-up (harness/fake_p4.go SetUpfInfoNoLoop is out of date): " + strings.Join(diff, "; "))
+		}
+		res.Extra["startup_conformance"] = "fast assembly == real SetUpfInfo+keepTryingToConnect over gRPC (UP4 fields, switch contents)"
 	}
 	for i, sc := range scs {
 		sc := sc
